@@ -175,6 +175,8 @@ def check_and_dump(ctx, d, n, cover, msgs=2, spawn=2):
     r = tlc.run(d, mod, cfg, workers=2 if n >= 3 else 1, timeout=3000, heap="6g", args=["-dump", "dot,actionlabels", dot])
     ctx.states += r.distinct
     ctx.transitions += r.generated
+    if os.path.exists(dot + "_liveness.dot"):        # (TLC also dumps its liveness graph: not used, and big)
+        os.unlink(dot + "_liveness.dot")
     if not r.ok:
         raise tlc.TLCError("specification FourCounter (N = %d) does not satisfy its own properties (%s); this is a model "
                            "failure, not a verdict about the code\n%s" % (n, r.violated, r.out[-2500:]))
